@@ -80,6 +80,8 @@ pub struct RigCfg {
     pub fault: u8,
     pub per_client: bool,
     pub level: String,
+    /// status_interval in seconds (None = the default 600 s: the statistics timer never fires in a scenario)
+    pub status: Option<u64>,
 }
 
 pub struct Rig {
@@ -121,8 +123,11 @@ impl Rig {
         mc.client_stats = cfg.per_client;
         mc.kms_protection = KmsProtection::Plaintext;
         mc.num_workers = 1;
+        if let Some(st) = cfg.status {
+            mc.status_interval = Duration::from_secs(st);
+        }
         set_level(&cfg.level);
-        let queue = Arc::new(StatsQueue::new(8));
+        let queue = Arc::new(StatsQueue::new(256));
         let server = Server::new(&mc, sock, queue.clone());
         let mut clients = vec![];
         for _ in 0..nclients {
